@@ -499,6 +499,26 @@ theorem reader_ranges_all (version : Bytes) (t : ModelT) (d : Desc) (h : Reader.
     ∀ td ∈ d.tensors, td.range = if td.quant.isSome then (Spec.intType td.dtype).map (fun sb => Spec.fullRange sb.1 sb.2) else none :=
   Reader.read_range version t d h
 
+/-- **reader_clones_keep_quantisation.** In the graph the reader builds from any file, a tensor with `src_tensor` (the reshaped
+clone of constant weights or of a constant bias) has exactly the quantisation (every field), element type and range of the tensor
+it was cloned from (seeded changes C11-m3 / C11-r3m2 altered `QuantizationParameters.clone`). -/
+theorem reader_clones_keep_quantisation (version : Bytes) (t : ModelT) (d : Desc) (h : Reader.read version t = .ok d) :
+    ∀ (i : Nat) td s, d.tensors[i]? = some td → td.src = some s →
+      ∃ ts, d.tensors[s]? = some ts ∧ td.quant = ts.quant ∧ td.dtype = ts.dtype ∧ td.range = ts.range :=
+  Reader.read_cloneOk version t d h
+
+/-- **reader_metadata_names_are_bytes.** Every metadata entry the reader keeps has its name as `bytes` — the form the writer's
+test `name == b"OfflineMemoryAllocation"` recognises (seeded change C12-r4m2 decoded the name). -/
+theorem reader_metadata_names_are_bytes (version : Bytes) (t : ModelT) (d : Desc) (h : Reader.read version t = .ok d) :
+    ∀ md ∈ d.metadata, md.nameIsBytes = true :=
+  Reader.read_metadata_bytes version t d h
+
+/-- … and the writer then adds no second offline plan: an entry named `b"OfflineMemoryAllocation"` suppresses the generated one -/
+example : (metadataToWrite { Demo.demo with metadata := [{ nameIsBytes := true, name := omaName, data := none }] } []).toOption.map
+    (fun l => l.map (·.name)) = some [omaName, velaVersionName] := by decide +kernel
+example : (metadataToWrite { Demo.demo with metadata := [{ nameIsBytes := false, name := omaName, data := none }] } []).toOption.map
+    (fun l => l.map (·.name)) = some [omaName, velaVersionName, omaName] := by decide +kernel
+
 /-- the ranges themselves, for the record -/
 example : Spec.fullRange true 16 = (-32768, 32767) ∧ Spec.fullRange true 8 = (-128, 127) ∧ Spec.fullRange false 8 = (0, 255) ∧
     Spec.fullRange true 32 = (-2147483648, 2147483647) := by decide
